@@ -564,6 +564,8 @@ def check_C08(res, ctx):
     # a concurrent Merge: writers inside the window right after Merge released the lock, and inside its scan loop
     conccheck.check_merge_concurrent(res, ctx, rng_for(ctx.seed, "C08m"), [3] if ctx.quick else [1, 2, 3], 6 if ctx.quick else 40)
     conccheck.check_merge_model(res, ctx, rng_for(ctx.seed, "C08mm"), [2] if ctx.quick else [1, 2, 3], 6 if ctx.quick else 40)
+    # other goroutines while a batch is open: its early flushes must not be observable, no never-committed value may be served
+    conccheck.check_batch_visibility(res, ctx, [(1, 0), (3, 0)] if ctx.quick else [(1, 0), (2, 0), (3, 0), (1, 1)])
     # readers of the last acknowledged key against a writer that rotates on almost every Put
     for i in range(3 if ctx.quick else 9):
         rep, err, rc = conccheck.run_race(ctx, 2 if ctx.quick else 15, 12, 1 + i % 3, (i // 3) % 2, ctx.seed, race=False, mode="hot")
